@@ -78,17 +78,18 @@ func c29Scenarios(thorough bool) []c29Scenario {
 
 // c29Mon is the monitor evaluated at quiescent points where the queue's mutex is free.
 type c29Mon struct {
-	q        *Queue
-	curOp    map[string]c29Op // thread name -> operation in progress
-	prevSet  map[*query]bool
-	prevList []*query
-	prevAct  int64
-	counts   map[*query]map[string]int // waiting query -> grants to other users since it waits
-	raised   bool
+	q          *Queue
+	curOp      map[string]c29Op // thread name -> operation in progress
+	prevSet    map[*query]bool
+	prevList   []*query
+	prevAct    int64
+	counts     map[*query]map[string]int // (unused since the per-user monitor)
+	userCounts map[string]map[string]int // waiting user -> grants to other users since it was last served
+	raised     bool
 	everWaited bool
-	viol     string
-	sig      string
-	grants   []string
+	viol       string
+	sig        string
+	grants     []string
 }
 
 func c29Closed(ch chan struct{}) bool {
@@ -158,33 +159,51 @@ func (m *c29Mon) check(s *vsched.Sched) {
 	if !m.raised && q.activeQuery < q.maxActiveQuery && len(list) > 0 {
 		m.fail("C29:queue-waiter-not-granted-with-free-capacity", fmt.Sprintf("active=%d capacity=%d but %d queries wait", q.activeQuery, q.maxActiveQuery, len(list)))
 	}
-	// (d) round robin: a user is not granted twice while another user's query that was already waiting still waits
+	// (d) round robin, as the statement words it: a user is not granted twice while another USER that was
+	// already waiting is still waiting, i.e. without that user being served in between. (The first version
+	// of this monitor counted per waiting query; with two queries of one user in the queue it then reported
+	// the legal order u1 u2 u1 u2 u1 in the thorough-only scenario "4 threads 2 users cap1".)
 	for _, g := range granted {
 		m.grants = append(m.grants, g)
+		delete(m.userCounts, g) // g was served: whoever waits for g starts counting afresh
+		waitingUsers := map[string]bool{}
 		for _, w := range m.prevList {
-			if !set[w] || w.token == g {
-				continue
+			if set[w] && w.token != g {
+				waitingUsers[w.token] = true
 			}
-			if m.counts[w] == nil {
-				m.counts[w] = map[string]int{}
+		}
+		for u := range waitingUsers {
+			if m.userCounts[u] == nil {
+				m.userCounts[u] = map[string]int{}
 			}
-			m.counts[w][g]++
-			if m.counts[w][g] >= 2 {
-				m.fail("C29:queue-user-granted-twice-while-other-waits", fmt.Sprintf("user %s granted twice while a query of user %s kept waiting (grants so far %v)", g, w.token, m.grants))
+			m.userCounts[u][g]++
+			if m.userCounts[u][g] >= 2 {
+				m.fail("C29:queue-user-granted-twice-while-other-waits", fmt.Sprintf("user %s granted twice while user %s kept waiting without being served (grants so far %v)", g, u, m.grants))
 			}
+		}
+	}
+	for u := range m.userCounts { // a user with nothing waiting any more is not "still waiting"
+		still := false
+		for _, w := range list {
+			if w.token == u {
+				still = true
+			}
+		}
+		if !still {
+			delete(m.userCounts, u)
 		}
 	}
 	m.prevSet, m.prevList, m.prevAct = set, list, q.activeQuery
 }
 
 func c29RunScenario(x *mc.Exec, sc c29Scenario, rep *mc.Report) mc.Verdict {
-	mon := &c29Mon{curOp: map[string]c29Op{}, counts: map[*query]map[string]int{}}
+	mon := &c29Mon{curOp: map[string]c29Op{}, counts: map[*query]map[string]int{}, userCounts: map[string]map[string]int{}}
 	var cancels []context.CancelFunc
 	held := 0
 	var log []string
 	res := vsched.Run(x, vsched.Config{
 		FreeBlockedSwitch: true,
-		AtQuiescence: func(s *vsched.Sched) { mon.check(s) },
+		AtQuiescence:      func(s *vsched.Sched) { mon.check(s) },
 		Cleanup: func() {
 			for _, c := range cancels {
 				c()
@@ -192,6 +211,7 @@ func c29RunScenario(x *mc.Exec, sc c29Scenario, rep *mc.Report) mc.Verdict {
 		},
 	}, func() {
 		q := NewQueue(sc.cap)
+		curCap := sc.cap
 		mon.q = q
 		mon.prevAct = 0
 		ctxs := make([]context.Context, 4)
@@ -236,9 +256,10 @@ func c29RunScenario(x *mc.Exec, sc c29Scenario, rep *mc.Report) mc.Verdict {
 						vsched.Point("cancel")
 						cancels[op.arg]()
 					case c29Adjust:
-						if int64(op.arg) > sc.cap {
+						if int64(op.arg) > curCap { // relative to the capacity in force, not to the initial one
 							mon.raised = true
 						}
+						curCap = int64(op.arg)
 						q.AdjustCapacity(uint64(op.arg))
 					}
 					delete(mon.curOp, name)
